@@ -192,16 +192,22 @@ Section Emod.
 
   (* the data are scaled to the LUT, the result is scaled back with the
      viscosity of the event; [arr]: the viscosity is an ndarray *)
+  (* look-up of a normalised point and back-scaling of the value *)
+  Definition point_event (arr : bool) (L : lut) (S : setup)
+             (nn : list nnode) (ts : list triangle) (p : pt) (v : Q)
+    : option Q :=
+    match find_tri p nn ts with
+    | Some e => Some (scale_emod arr e (l_cw L) (s_cw S) (l_fr L) (s_fr S)
+                                 (l_visc L) v)
+    | None => None
+    end.
+
   Definition data_event (arr : bool) (L : lut) (S : setup) (xm dm : Q)
              (nn : list nnode) (ts : list triangle) (ev : event) (v : Q)
     : option Q :=
     let x4 := scale_featx (l_feat L) (fst ev) (s_cw S) (l_cw L) in
     let d' := pxcorr (l_feat L) (s_px S) (fst ev) (snd ev) in
-    match find_tri (normq x4 xm, normq d' dm) nn ts with
-    | Some e => Some (scale_emod arr e (l_cw L) (s_cw S) (l_fr L) (s_fr S)
-                                 (l_visc L) v)
-    | None => None
-    end.
+    point_event arr L S nn ts (normq x4 xm, normq d' dm) v.
 
   Definition array_event := data_event true.
 
@@ -662,13 +668,38 @@ Definition malloc (m : mem) (v : list Q) : mem * N :=
 Definition np_array (copy : bool) (m : mem) (a : N) : mem * N :=
   if copy then malloc m (mread m a) else (m, a).
 
+(* medium / temperature as the memory model sees it: the temperature array
+   is one of the caller's arrays *)
+Inductive mmedium :=
+| MMNum (v : Q)
+| MMScalar (t : Q)
+| MMArray (at_ : N).
+
 Section EmodMem.
   Variable tri : list pt -> list triangle.
   Variable delta : feat -> Q -> Q -> Q.
   Variable eta : Q -> Q.
 
+  (* interpolation and back-scaling of the NORMALISED arrays (what
+     griddata and scale_emodulus see) *)
+  Definition emod_points (L : lut) (S : setup) (md : medium) (pts : list pt)
+    : option (list (option Q)) :=
+    let nn := normalize_nodes (l_nodes L) in
+    let ts := tri (map fst nn) in
+    match md with
+    | MNum v => Some (map (fun p => point_event false L S nn ts p v) pts)
+    | MTempScalar t =>
+        Some (map (fun p => point_event false L S nn ts p (eta t)) pts)
+    | MTempArray [] => None
+    | MTempArray tl =>
+        match broadcast (map eta tl) (length pts) with
+        | Some vs' => Some (map2 (point_event true L S nn ts) pts vs')
+        | None => None
+        end
+    end.
+
   Definition get_emodulus_mem (copy : bool) (m0 : mem) (L : lut) (S : setup)
-             (md : medium) (ax ad : N)
+             (md : mmedium) (ax ad : N)
     : mem * option (list (option Q)) :=
     let f := l_feat L in
     let (m1, datax) := np_array copy m0 ax in
@@ -677,9 +708,13 @@ Section EmodMem.
               else mwrite m2 deform
                           (map2 (fun x d => d - delta f (s_px S) x)
                                 (mread m2 datax) (mread m2 deform)) in
-    (* the result is computed from the values read at the start *)
-    let r := get_emodulus tri delta eta L S md
-                          (combine (mread m0 ax) (mread m0 ad)) in
+    (* get_viscosity reads the temperature array NOW (after the in-place
+       pixelation correction) *)
+    let med := match md with
+               | MMNum v => MNum v
+               | MMScalar t => MTempScalar t
+               | MMArray a => MTempArray (mread m3 a)
+               end in
     let (m4, x4) := malloc m3 (map (fun x => scale_featx f x (s_cw S) (l_cw L))
                                    (mread m3 datax)) in
     let (m5, d4) := np_array copy m4 deform in
@@ -687,24 +722,40 @@ Section EmodMem.
     let dm := lmax (map nd (l_nodes L)) in
     let m6 := mwrite m5 x4 (map (fun x => normq x xm) (mread m5 x4)) in
     let m7 := mwrite m6 d4 (map (fun d => normq d dm) (mread m6 d4)) in
+    (* the result is computed from the arrays as they are NOW *)
+    let r := emod_points L S med (combine (mread m7 x4) (mread m7 d4)) in
     (* back-scaling of datax_4lut in place (its value is never used) *)
     let m8 := mwrite m7 x4 (map (fun x => scale_featx f x (l_cw L) (s_cw S))
                                 (mread m7 x4)) in
     (m8, r).
 End EmodMem.
 
-(* evaluation interface: copy=False on float64 arrays at addresses 0 (x) and
-   1 (deform); observable: the result and the final contents of both *)
+(* evaluation interface: arrays at addresses 0 (x), 1 (deform), 2
+   (temperatures, if per event); [alias]: the SAME array is passed as
+   abscissa and deform (address 0 twice); observable: the result and the final
+   contents of the arrays *)
 Definition enc_q (q : Q) : list Z := let q' := Qred q in [Qnum q'; Zpos (Qden q')].
 
-Definition run_case_nocopy (L : lut) (c : case) : list Z :=
-  let m0 := mkMem [(0%N, map fst (c_events c)); (1%N, map snd (c_events c))] 2 in
+Definition run_case_mem (copy alias : bool) (L : lut) (c : case) : list Z :=
+  let temps := match c_medium c with MTempArray tl => tl | _ => [] end in
+  let m0 := mkMem [(0%N, map fst (c_events c)); (1%N, map snd (c_events c));
+                   (2%N, temps)] 3 in
+  let md := match c_medium c with
+            | MNum v => MMNum v
+            | MTempScalar t => MMScalar t
+            | MTempArray _ => MMArray 2
+            end in
   let (m', r) := get_emodulus_mem (fun _ => c_tris c)
                                   (pxdelta (fun a => lookupq a (c_exp c)))
                                   (fun t => lookupq t (c_eta c))
-                                  false m0 L (c_setup c) (c_medium c) 0 1 in
+                                  copy m0 L (c_setup c) md 0
+                                  (if alias then 0%N else 1%N) in
   enc_all r ++ [77%Z] ++ flat_map enc_q (mread m' 0) ++ [77%Z]
-          ++ flat_map enc_q (mread m' 1).
+          ++ flat_map enc_q (mread m' 1) ++ [77%Z]
+          ++ flat_map enc_q (mread m' 2).
+
+Definition run_case_nocopy (L : lut) (c : case) : list Z :=
+  run_case_mem false false L c.
 
 (* evaluation interface for histories: run_ops itself, on tables of three
    nodes (their only triangle is the triangulation), no pixelation *)
